@@ -907,6 +907,15 @@ def closure_facts(M):
 SITES = {('poller', 'start'): 1, ('poller', 'loop'): 2, ('writer', 'start'): 3, ('writer', 'loop'): 4}
 
 
+def native_spawn_refused(rp, watchdog_ms=10000):
+    """the operating system refuses every new thread while the daemon starts (address-space limit): no worker ever runs, so the daemon
+    must give up (the supervisor restarts it), not wait for notices that cannot come"""
+    cmd = 'threads 0 0 0 %d 0 0 1' % watchdog_ms
+    out = rp.ask(cmd)
+    refused = 'probe_spawn_refused=true' in out
+    return {'cmd': cmd, 'out': out, 'hung': out.startswith('ok hung'), 'returned_ms': None, 'ok': out.startswith('ok'), 'refused': refused or out.startswith('ok hung')}
+
+
 def native_fault(rp, who, where, nth, panic, watchdog_ms=10000, notify_delay_ms=0, chrony_answers=0):
     """chrony_answers > 0: a stand-in chronyd answers that many tracking requests and then disappears (a chronyd restart): the polls
     after that are missed polls inside the grace period"""
@@ -941,6 +950,11 @@ def native_only(ck, why, tier):
             ck.violation('daemon-lingers', 'the %s thread %s (%s, visit %d%s): the real thread_manager::run had not returned 10000 ms later - the daemon lingers with part of its pipeline dead (the step relations of this tree are outside the encodable fragment: %s)'
                          % (who, 'panics' if panic else 'returns', 'at start-up' if where == 'start' else 'at the top of its loop', nth, ((', held %d ms before its mailbox closes' % delay) if delay else '') + ((', chronyd answered %d polls and then went away' % answers) if answers else ''), why[:160]), {'cmd': nat['cmd'], 'native': nat['out']})
             break
+    if not ck.violations:
+        nat = native_spawn_refused(rp)
+        runs.append(nat)
+        if nat['hung']:
+            ck.violation('daemon-lingers', 'the operating system refuses new threads while the daemon starts (pthread_create fails with EAGAIN): the real thread_manager::run had not returned 10000 ms later - the daemon sits there with no (or only part of its) pipeline instead of exiting', {'cmd': nat['cmd'], 'native': nat['out']})
     rp.close()
     ck.cov['native_runs'] = [{'cmd': n['cmd'], 'returned_ms': n['returned_ms'], 'hung': n['hung']} for n in runs]
     ck.cov['traces_validated_against_impl'] = len(runs)
@@ -1078,6 +1092,11 @@ def run_check(tier, seed):
                 break
             if not nat['ok']:
                 ck.inconclusive.append('native thread run failed: ' + nat['out'][:100])
+    if not ck.violations:
+        nat = native_spawn_refused(rp, DEADLINE_MS)
+        native_runs.append(nat)
+        if nat['hung']:
+            ck.violation('daemon-lingers', 'the operating system refuses new threads while the daemon starts (pthread_create fails with EAGAIN): the real thread_manager::run had not returned %d ms later - the daemon sits there with no (or only part of its) pipeline instead of exiting' % DEADLINE_MS, {'cmd': nat['cmd'], 'native': nat['out']})
     rp.close()
     if diag and not ck.violations and res == 'unsat':
         # a piece differs from the documented mechanism but the composition still exits: reported, not a violation
